@@ -120,6 +120,7 @@ class Explorer:
                 # leaving a for-loop (break / return / exception / continue of an outer loop) drops its unroll counter
                 stale = [k for k in e2 if k.startswith("#for") and int(k[4:]) != t and not self._loop_encloses(int(k[4:]), t)]
                 if stale:
+                    stale += ["#iter" + k[4:] for k in stale]
                     e2 = {k: v for k, v in e2.items() if k not in stale}
                 stack.append((t, e2, trail2, False))
         return out
